@@ -1,11 +1,17 @@
 package main
 
 import (
+	"bufio"
 	"context"
+	"crypto/tls"
 	"errors"
 	"fmt"
+	"io"
+	"net"
+	"strconv"
 	"strings"
 	"sync"
+	"sync/atomic"
 	"time"
 
 	"github.com/redis/rueidis"
@@ -62,6 +68,146 @@ func runAtMostOnce(c *Ctx) {
 	}
 	for i, cfg := range cfgs {
 		amoEpisode(c, i, cfg)
+	}
+	// a batch whose WRITE fails half-way: the server executes the first commands of a batch larger than the write
+	// buffer, then stops reading and never answers; the lifetime expires while the writer is blocked in Write
+	for i, exec := range []int{1, 2, 5} {
+		partialFlushEpisode(c, i, exec)
+	}
+}
+
+// lateReadConn delays the read-side failure so that the pipe's writer (failing at the same instant, when the
+// connection is closed under it) has finished first: the teardown then sees the final writer counters.
+type lateReadConn struct{ net.Conn }
+
+func (l lateReadConn) Read(b []byte) (int, error) {
+	n, err := l.Conn.Read(b)
+	if err != nil {
+		time.Sleep(400 * time.Millisecond)
+	}
+	return n, err
+}
+
+func pfReadCmd(r *bufio.Reader) ([]string, error) {
+	line, err := r.ReadString('\n')
+	if err != nil {
+		return nil, err
+	}
+	if len(line) < 2 || line[0] != '*' {
+		return nil, fmt.Errorf("unexpected %q", line)
+	}
+	cnt, _ := strconv.Atoi(strings.TrimSpace(line[1:]))
+	args := make([]string, cnt)
+	for i := range args {
+		if line, err = r.ReadString('\n'); err != nil {
+			return nil, err
+		}
+		l, _ := strconv.Atoi(strings.TrimSpace(line[1:]))
+		buf := make([]byte, l+2)
+		if _, err = io.ReadFull(r, buf); err != nil {
+			return nil, err
+		}
+		args[i] = string(buf[:l])
+	}
+	return args, nil
+}
+
+// partialFlushEpisode: one DoMulti of 8 non-retryable APPENDs (600-byte values, 1024-byte write buffer) over an
+// unbuffered net.Pipe. The first connection's server executes `exec` of them, then stops reading and never replies;
+// ConnLifetime expires while the rest of the batch is stuck in Write, the close grace passes, the connection is
+// closed with the write half done. Whatever the client then does, no APPEND may be executed twice over all
+// connections within this one call.
+func partialFlushEpisode(c *Ctx, n int, exec int) {
+	var (
+		mu       sync.Mutex
+		executed = map[string]int{}
+		stalled  int32
+		release  = make(chan struct{})
+	)
+	defer close(release)
+	serve := func(conn net.Conn) {
+		defer conn.Close()
+		r := bufio.NewReaderSize(conn, 64)
+		out := make(chan string, 4096)
+		defer close(out)
+		go func() {
+			for s := range out {
+				io.WriteString(conn, s)
+			}
+		}()
+		stall, seen := false, 0
+		for {
+			args, err := pfReadCmd(r)
+			if err != nil {
+				return
+			}
+			switch strings.ToUpper(args[0]) {
+			case "HELLO":
+				out <- "%2\r\n+version\r\n+7.0.0\r\n+proto\r\n:3\r\n"
+			case "PING":
+				out <- "+PONG\r\n"
+			case "APPEND":
+				if seen == 0 && atomic.CompareAndSwapInt32(&stalled, 0, 1) {
+					stall = true
+				}
+				seen++
+				mu.Lock()
+				executed[args[1]]++
+				mu.Unlock()
+				if stall {
+					if seen == exec {
+						<-release
+						return
+					}
+					continue
+				}
+				out <- ":1\r\n"
+			default:
+				out <- "+OK\r\n"
+			}
+		}
+	}
+	client, err := rueidis.NewClient(rueidis.ClientOption{
+		InitAddress: []string{"pfsrv:6379"}, ForceSingleClient: true, DisableCache: true, AlwaysPipelining: true,
+		ConnLifetime: 600 * time.Millisecond, WriteBufferEachConn: 1024,
+		DialCtxFn: func(ctx context.Context, dst string, _ *net.Dialer, _ *tls.Config) (net.Conn, error) {
+			cl, sv := net.Pipe()
+			go serve(sv)
+			return lateReadConn{cl}, nil
+		},
+	})
+	if err != nil {
+		c.Fail("amo:newclient", "partial-flush", err.Error())
+		return
+	}
+	defer client.Close()
+	payload := strings.Repeat("x", 600)
+	multi := make([]rueidis.Completed, 0, 8)
+	for i := 0; i < 8; i++ {
+		multi = append(multi, client.B().Append().Key(fmt.Sprintf("pf%d_%d", n, i)).Value(payload).Build())
+	}
+	done := make(chan []rueidis.RedisResult, 1)
+	go func() { done <- client.DoMulti(context.Background(), multi...) }()
+	var res []rueidis.RedisResult
+	select {
+	case res = <-done:
+	case <-time.After(30 * time.Second):
+		c.Fail("amo:call-hung:partial-flush-at-lifetime-expiry", fmt.Sprintf("partial-flush exec=%d", exec), "DoMulti did not return within 30s")
+	}
+	mu.Lock()
+	counts := make([]int, 8)
+	for i := range counts {
+		counts[i] = executed[fmt.Sprintf("pf%d_%d", n, i)]
+	}
+	mu.Unlock()
+	c.Hit(fmt.Sprintf("amo:partial-flush:exec=%d:reached=%v:returned=%v", exec, counts[0] > 0, res != nil))
+	for i, cnt := range counts {
+		ack := res != nil && i < len(res) && res[i].Error() == nil
+		op := fmt.Sprintf("!amo %s %d %s", hx(fmt.Sprintf("pf%d_%d", n, i)), cnt, b01(ack))
+		if cnt > 1 {
+			c.Fail("amo:executed-twice:partial-flush-at-lifetime-expiry", op, fmt.Sprintf("non-retryable APPEND #%d of a DoMulti whose write failed half-way (server executed %d commands, then stopped reading; ConnLifetime expired) was executed %d times within one call", i, exec, cnt))
+		}
+		c.Emit(op, "ok", true)
 	}
 }
 
